@@ -389,3 +389,22 @@ Theorem C14_ng_prefix_file_unmixed_partial : forall ro sec i0 ops pre nxt post k
   /\ end_class r = (if snd e =? 3 then 3 else if (k =? 0)%nat then 1 else 2).
 Proof. exact prefix_file_u. Qed.
 Print Assumptions C14_ng_prefix_file_unmixed_partial.
+
+(* C14_ng_prefix from the same call-by-call hypotheses as C14_ng_roundtrip (all link types wanted):
+   the script with its first interface is split anywhere as pre ++ nxt :: post and the file cut k
+   bytes into the block of nxt; exactly the packets of pre come back (exp_pkts, whose flat_map form
+   is C14_ng_hypotheses_bridge), then io.EOF at the block boundary (k = 0) and io.ErrUnexpectedEOF
+   inside the block.  Cuts inside the section header: C14_ng_prefix_header_partial; the run with the
+   cut input's own fuel: C14_ng_prefix_file_own_fuel_partial. *)
+Theorem C14_ng_prefix : forall ro sec i0 ops pre nxt post k,
+  ro_mixed ro = true -> sec_ok sec -> wif_ok i0 -> zlen ops < 4294967290 ->
+  Forall (op_pre (snaps_of i0 ops)) ops ->
+  Forall (fun r => snd r = true) (write_blocks sec i0 ops) ->
+  WAddIf i0 :: ops = pre ++ nxt :: post -> (k < length (enc_op nxt))%nat ->
+  let file := write_file sec i0 ops in
+  forall F, (fuel_for (zlen file) <= F)%nat ->
+  let cut := (length (enc_shb sec) + length (enc_ops pre) + k)%nat in
+  let r := fst (run_d (session ro F) (firstn cut file)) in
+  new_class r = 0 /\ packets r = exp_pkts [] pre /\ end_class r = (if (k =? 0)%nat then 1 else 2).
+Proof. exact prefix_full. Qed.
+Print Assumptions C14_ng_prefix.
